@@ -36,6 +36,9 @@ class Walker:
         self.cbcount = {}
         self.drops = {}
         self.user_disp = set()        # handles whose Dispatcher clone the scenario still holds
+        self.reenabled = {}           # handle -> dispatch number of the enable() that ended its last disabled interval
+        self.arm = {}                 # (composite handle, sub index from 1) -> sequence number of the (re)registration that armed it, or None
+        self.arm_seq = 0
         self.unreleased_reported = set()
         # causes
         self.fdc = {}           # raw fd counters
@@ -69,6 +72,12 @@ class Walker:
 
     def fail(self, prop, kind, msg):
         self.fails.append("%s/%s: %s" % (prop, kind, msg))
+        if (prop, kind) in (("C02", "missed-timer"), ("C05", "missed"), ("C02", "missed")):
+            # readiness survives the gap (C07): a source that was disabled and enabled again and then misses an event that is due
+            for h, d in getattr(self, "reenabled", {}).items():
+                if ("timer %d " % h) in msg or ("source %d " % h) in msg:
+                    self.fails.append("C07/lost-over-gap: %s - source %d was disabled and enabled again (enable before dispatch %d): "
+                                      "readiness that persisted over the disabled interval was not delivered" % (msg, h, d + 1))
         if prop == "C02" and kind.startswith("missed"):
             # an enabled source that goes silent right after another source was disabled / enabled / updated was disturbed by
             # that operation (C07, last clause)
@@ -267,6 +276,8 @@ class Walker:
                     self.excuse_why.pop(h, None)
                 if h not in self.disabled:
                     self.double_enabled.add(h)
+                else:
+                    self.reenabled[h] = self.disp_no      # enabled again after a disable(): what was ready must now be delivered (C07)
                 self.disabled.discard(h)
                 self.updated_while_disabled.discard(h)
                 if h in self.timer and self.timer[h]["dl"] is not None:
@@ -382,6 +393,16 @@ class Walker:
                     # the composite (and its Timer) was (re)registered after this dispatch polled: an expiry already in the
                     # batch may still arrive and leave a second wheel entry behind (finding F5)
                     self.ctimer[hh]["rereg_in"] = self.disp_no
+                sp16 = self.spec.get(hh)
+                if sp16 and sp16[2] == "comp":
+                    nsub = (len(sp16) - 5) // 3
+                    if ws[3] == "0" and ws[2] in ("0", "1"):
+                        self.arm_seq += 1
+                        for j in range(1, nsub + 1):
+                            self.arm[(hh, j)] = self.arm_seq      # a successful (re)registration arms one-shot / edge subs again
+                    else:
+                        for j in range(1, nsub + 1):
+                            self.arm[(hh, j)] = None              # unregistered, or a failed call: state not relied upon
                 if ws[3] != "0":
                     self.reg_failed = True
                     self.excuse(int(ws[1]), "register-failed" if ws[2] == "0" else "reregister-failed")   # a failed (re/un)registration leaves the source in an unknown state
@@ -405,6 +426,7 @@ class Walker:
                 self.close_segment()
                 batch = [int(x) for x in ws[1:]]
                 self.take_snapshot()
+                self.snapshot["batch_keys"] = set(c // 4 for c in batch)
                 # every enabled lifecycle source must have had its before_sleep
                 got = [h for h, _ in bs_seen]
                 if len(set(got)) != len(got):
@@ -480,6 +502,12 @@ class Walker:
             if tag == "6":    # dispatch end
                 self.close_segment()
                 ok = int(ws[2]) == 0
+                if self.snapshot is not None:
+                    # a reported one-shot / edge sub has used up the arming it had when the dispatch polled, however the dispatch ends
+                    for k in getattr(self, "fired_subs", set()):
+                        a = self.snapshot.get("armed", {}).get(k)
+                        if a is not None and self.arm.get(k) == a:
+                            self.arm[k] = None
                 if ok:
                     if not idle_started:
                         pre = list(self.idle_queue)
@@ -659,19 +687,29 @@ class Walker:
         if kind == "comp" and not timer_sub:
             if sc[0] == 3:
                 self.pending_self.append(("dead", h))
+            if sc[0] != 0:
+                # a post action other than Continue (Reregister / Disable / Remove / Err) is an operation of the source on itself:
+                # events for its other sub-sources later in the same batch may legitimately be dropped (C02's own exception)
+                self.post_acted = getattr(self, "post_acted", set())
+                self.post_acted.add(h)
         self.fired_this_dispatch = getattr(self, "fired_this_dispatch", set())
         self.fired_this_dispatch.add(h)
+        self.fired_subs = getattr(self, "fired_subs", set())
+        self.fired_subs.add((h, sub))
 
     # ---------------------------------------------------------------- per-dispatch checks
     def take_snapshot(self):
         self.fired_this_dispatch = set()
+        self.fired_subs = set()
+        self.post_acted = set()
         self.snapshot = dict(
             fdc=dict(self.fdc),
             pingc=dict(self.pingc),
             chan={c: (len(v["q"]), v["senders"], v["closed"]) for c, v in self.chan.items()},
             timers={h: (t["dl"], t["armed"]) for h, t in self.timer.items()},
             enabled={h for h in self.live if h not in self.disabled},
-            excused=set(self.excused))
+            excused=set(self.excused),
+            armed=dict(self.arm))
 
     def check_dispatch_ok(self, bs_seen):
         snap = self.snapshot
@@ -679,6 +717,32 @@ class Walker:
             return
         now = 2 * self.phase + 1
         fired = getattr(self, "fired_this_dispatch", set())
+        # one-shot / edge-triggered subs (C02: reported once per arming, re-armed by every successful (re)registration): a sub that was
+        # armed and ready when the dispatch polled must be reported in it; being reported consumes the arming
+        fsubs = getattr(self, "fired_subs", set())
+        for h in sorted(snap["enabled"]):
+            sp = self.spec.get(h)
+            if self.kind.get(h) != "comp" or not sp or h in self.ctimer:
+                continue
+            subs = sp[5:]
+            for j in range(0, len(subs), 3):
+                fd, it, md = int(subs[j]), int(subs[j + 1]), int(subs[j + 2])
+                k = (h, j // 3 + 1)
+                a = snap.get("armed", {}).get(k)
+                if md == 0 or a is None or len(self.fd_users.get(fd, ())) > 1:
+                    continue
+                c = snap["fdc"].get(fd, 0)
+                ready = ((it & 1) and c > 0) or ((it & 2) and c < EFD_MAX)
+                if not ready:
+                    continue
+                RULE_STATS["C02/missed-oneshot: armed and ready one-shot/edge subs judged"] += 1
+                if k in fsubs:
+                    if self.arm.get(k) == a:
+                        self.arm[k] = None
+                elif not (h in snap["excused"] or h in self.excused or h in self.touched or h in getattr(self, "post_acted", ())):
+                    self.fail("C02", "missed-oneshot", "%s sub %d (fd %d, counter %d, interest %d) of enabled source %d was armed by its last "
+                              "(re)registration and ready when the dispatch polled, but was not reported" %
+                              ("one-shot" if md == 2 else "edge-triggered", k[1], fd, c, it, h))
         for h in sorted(snap["enabled"]):
             if h in snap["excused"] or h in self.excused or h in self.touched or h in fired:
                 continue
@@ -733,6 +797,20 @@ class Walker:
                 self.timer[h]["armed"] = False
                 self.fail("C05", "lost-in-failed-dispatch", "timer %d (deadline %d) was popped by a dispatch that returned Err and never fires" % (h, dl))
                 self.fail("C15", "lost-in-failed-dispatch", "timer %d lost its expiry because another source failed in the same dispatch" % h)
+        # ... and the events of one-shot / edge-triggered fds that were in the abandoned batch: the kernel will not report them again
+        fsubs = getattr(self, "fired_subs", set())
+        for k, a in sorted(snap.get("armed", {}).items()):
+            h, j = k
+            sp = self.spec.get(h)
+            if a is None or self.arm.get(k) != a or not sp or sp[2] != "comp" or k in fsubs or h not in self.key:
+                continue
+            fd, it, md = int(sp[5 + 3 * (j - 1)]), int(sp[6 + 3 * (j - 1)]), int(sp[7 + 3 * (j - 1)])
+            if md == 0 or (self.key[h] + j) not in snap.get("batch_keys", ()):
+                continue
+            self.arm[k] = None
+            if h in self.live and h not in self.touched and h not in self.excused and len(self.fd_users.get(fd, ())) <= 1:
+                self.fail("C02", "lost-in-failed-dispatch", "the event of %s sub %d (fd %d) of source %d was collected by a dispatch that returned Err "
+                          "before reaching it and is never reported" % ("one-shot" if md == 2 else "edge-triggered", j, fd, h))
 
     def check_wheel(self, entries):
         if self.excused & set(self.timer.keys()):
